@@ -22,3 +22,73 @@ def pytest_configure(config):
             pass
         return orig(jaqal, *a, **k)
     P.parse_to_sexpression = recording
+
+
+# ---------------------------------------------------------------------------------------------------------------
+# the same for the transformation passes: every call the repository's tests make is recorded as one case of the
+# trace specification Conform_Pass (input projection, override, outcome projection)
+PASSES = [
+    ('jaqalpaq.core.algorithm.expand_macros', 'expand_macros', 'expand_macros'),
+    ('jaqalpaq.core.algorithm.fill_in_let', 'fill_in_let', 'fill_in_let'),
+    ('jaqalpaq.core.algorithm.fill_in_map', 'fill_in_map', 'fill_in_map'),
+    ('jaqalpaq.core.algorithm.expand_subcircuits', 'expand_subcircuits', 'expand_subcircuits'),
+    ('jaqalpaq.core.algorithm.unit_timing', 'normalize_blocks_with_unitary_timing', 'unit_timing'),
+]
+
+
+def _record_pass(out, site, fn):
+    import functools
+
+    @functools.wraps(fn)
+    def recording(circuit, *a, **k):
+        rec = None
+        try:
+            from jaqalpaq.core.circuit import Circuit
+            from harness import passes, project
+            plain = isinstance(circuit, Circuit) and not (site == 'expand_macros' and (a or k.get('preserve_definitions'))) \
+                and not (site == 'expand_subcircuits' and (a or k))
+            if plain:
+                ovr = k.get('override_dict') or (a[0] if a else None) or {}
+                rec = {'site': site, 'inp': passes.compress(project.circuit(circuit)),
+                       'ovr': [{'v': str(n), 'val': project.num(v)} for n, v in ovr.items()]}
+                if any(o['val'] is None for o in rec['ovr']):
+                    rec = None
+        except Exception:
+            rec = None
+        try:
+            result = fn(circuit, *a, **k)
+        except BaseException as e:
+            if rec is not None:
+                try:
+                    from harness import impl, passes
+                    rec['out'] = {'cls': impl.classify_exc(e), 'prog': passes.EMPTY_PROG, 'msg': str(e)[:120]}
+                    out.write(json.dumps(rec) + '\n')
+                    out.flush()
+                except Exception:
+                    pass
+            raise
+        if rec is not None:
+            try:
+                from harness import passes, project
+                rec['out'] = {'cls': 'ok', 'prog': passes.compress(project.circuit(result)), 'msg': ''}
+                out.write(json.dumps(rec) + '\n')
+                out.flush()
+            except Exception:
+                pass
+        return result
+    return recording
+
+
+def pytest_sessionstart(session):
+    path = os.environ.get('VERIF_RECORD_PASSES')
+    if not path:
+        return
+    import importlib
+    out = open(path, 'a')
+    pkg = importlib.import_module('jaqalpaq.core.algorithm')
+    for modname, fname, site in PASSES:
+        mod = importlib.import_module(modname)
+        wrapped = _record_pass(out, site, getattr(mod, fname))
+        setattr(mod, fname, wrapped)
+        if hasattr(pkg, fname):
+            setattr(pkg, fname, wrapped)
